@@ -76,6 +76,9 @@ func init() {
 				cs = append(cs, ev.MkCase("batch", c17Batch{What: "discovery", Count: 60, Seed: seed*17 + int64(k)}))
 				cs = append(cs, ev.MkCase("batch", c17Batch{What: "authwrapper", Count: 1500, Seed: seed*19 + int64(k)}))
 			}
+			for _, n := range []int{70, 130, 260, 300, 600} {
+				cs = append(cs, ev.MkCase("long", c17LongSess{Seed: seed + int64(n), N: n}))
+			}
 			for k := 0; k < reps; k++ {
 				for at := 1; at <= 9; at++ {
 					for _, kind := range []string{"erase", "replace", "add"} {
@@ -109,6 +112,10 @@ func c17Exec(run *ev.Run, c ev.Case) {
 		var o c17SDRHist
 		c.Decode(&o)
 		c17SDR(run, o)
+	case "long":
+		var o c17LongSess
+		c.Decode(&o)
+		c17Long(run, o)
 	case "disc":
 		var o c17Disc
 		c.Decode(&o)
@@ -441,6 +448,12 @@ func c17Discovery(run *ev.Run, o c17Disc) {
 	if !o.Change {
 		dataB = dataA
 	}
+	// the session variant uses the library's default preferences (17, then 3) in half of the
+	// cases and the same list given explicitly in the other half
+	sessionPrefs := []ipmi.CipherSuite{{AuthenticationAlgorithm: 3, IntegrityAlgorithm: 4, ConfidentialityAlgorithm: 1}, ipmi.CipherSuite3}
+	if o.Seed%2 == 0 {
+		sessionPrefs = nil
+	}
 	second := func(e *Env, cfg refbmc.Config) string {
 		ctx, cancel := e.LimitCtx(80)
 		defer cancel()
@@ -449,7 +462,7 @@ func c17Discovery(run *ev.Run, o c17Disc) {
 			var sess *bmc.V2Session
 			pv, st := safe(func() {
 				sess, err = e.ST.NewV2Session(ctx, &bmc.V2SessionOpts{SessionOpts: bmc.SessionOpts{Username: cfg.Username, Password: cfg.Password, MaxPrivilegeLevel: ipmi.PrivilegeLevelAdministrator},
-					CipherSuites: []ipmi.CipherSuite{{AuthenticationAlgorithm: 3, IntegrityAlgorithm: 4, ConfidentialityAlgorithm: 1}, ipmi.CipherSuite3}})
+					CipherSuites: sessionPrefs})
 			})
 			if pv != nil {
 				return fmt.Sprintf("panic %v at %s", pv, panicSite(st))
@@ -525,6 +538,24 @@ func c17Discovery(run *ev.Run, o c17Disc) {
 	fresh := second(ef, cfgf)
 	run.Event("discovery-histories", 1)
 	run.Nontrivial(fmt.Sprintf("disc|%d|%s|%v|%v|%v", o.FailAt, o.FailKind, o.Change, o.NewSession, firstErr != nil))
+	if o.NewSession {
+		// the outcome is also known in absolute terms (state shared by the whole process would
+		// affect the fresh connection just the same): suite 17 if advertised, else suite 3
+		want := "session RAKP-HMAC-SHA1/HMAC-SHA1-96/AES-CBC-128"
+		if ents, ok := c16RefParse(dataB); ok {
+			for _, en := range ents {
+				if en.Auth == 3 && en.Integ == 4 && en.Conf == 1 {
+					want = "session RAKP-HMAC-SHA256/HMAC-SHA256-128/AES-CBC-128"
+				}
+			}
+		}
+		norm := func(s string) string { return strings.NewReplacer("(", " ", ")", " ").Replace(s) }
+		_ = norm
+		if fresh != "err" && used != "err" && (!c17SameSuite(used, want) || !c17SameSuite(fresh, want)) {
+			run.Violation("C17:discovery:result-depends-on-process-history", fmt.Sprintf("handshake with preferences 17 then 3 (defaults: %v) against a BMC advertising %x: used connection %q, fresh connection %q, expected %s", sessionPrefs == nil, dataB, used, fresh, want), cs, nil)
+			return
+		}
+	}
 	if used != fresh {
 		run.Violation("C17:discovery:result-depends-on-history", fmt.Sprintf("cipher suite discovery after an earlier retrieval (failure %s at request %d: err=%v; records changed: %v; through NewV2Session: %v): used connection %q, fresh connection %q", o.FailKind, o.FailAt, firstErr, o.Change, o.NewSession, used, fresh), cs, nil)
 	}
@@ -674,4 +705,75 @@ func c17AuthWrapper(run *ev.Run, seed int64, count int, cs ev.Case) {
 			}
 		}
 	}
+}
+
+// c17SameSuite compares a rendered "session a/i/c" with the expected one by the
+// algorithm numbers it names (the library's String() forms carry the number).
+func c17SameSuite(got, want string) bool {
+	is17 := strings.Contains(want, "SHA256")
+	got17 := strings.Contains(got, "SHA256") || strings.Contains(got, "(3)") && strings.Contains(got, "(4)")
+	return is17 == got17
+}
+
+// c17Long: a session that has carried many commands answers the next one as a
+// fresh session does (counters that wrap, fields narrower than the counters they
+// are fed from).
+type c17LongSess struct {
+	Seed int64
+	N    int
+}
+
+func c17Long(run *ev.Run, o c17LongSess) {
+	run.Eval(1)
+	cs := ev.MkCase("long", o)
+	r := rng(o.Seed, "c17long")
+	cfg := defaultCfg(r)
+	e := NewEnv(cfg, memtr.Window)
+	e.BMC.KeepLog = false
+	devid := []byte{0x20, 0x81, 0x03, 0x15, 0x02, 0xbf, 0x57, 0x01, 0x00, 0x34, 0x12, 1, 2, 3, 4}
+	e.BMC.Handler = refbmc.Chain(refbmc.Fixed(6, 0x01, 0, devid), refbmc.Fixed(0, 0x01, 0, []byte{0x21, 0x10, 0x40, 0x54}), refbmc.Fixed(6, 0x3c, 0, nil))
+	ctx, cancel := bg(60 * time.Second)
+	defer cancel()
+	sess, err := e.OpenSession(ctx, stdSuites()[int(o.Seed)%9])
+	if err != nil {
+		run.Violation("C17:handshake-failed", err.Error(), cs, nil)
+		return
+	}
+	first := ""
+	for i := 1; i <= o.N; i++ {
+		cctx, ccancel := e.LimitCtx(3)
+		var res string
+		pv, st := safe(func() {
+			if i%5 == 0 {
+				v, err := sess.GetChassisStatus(cctx)
+				res = fmt.Sprintf("chassis %v err=%v", v != nil && v.PoweredOn, err != nil)
+				return
+			}
+			v, err := sess.GetDeviceID(cctx)
+			if v != nil {
+				res = fmt.Sprintf("devid %d %d %v err=%v", v.ID, v.MajorFirmwareRevision, v.Manufacturer, err != nil)
+			} else {
+				res = fmt.Sprintf("devid nil err=%v", err != nil)
+			}
+		})
+		ccancel()
+		if pv != nil {
+			run.Violation("C17:long-session:panic:"+panicSite(st), fmt.Sprintf("command %d of a session: %v", i, pv), cs, nil)
+			return
+		}
+		if i%5 != 0 {
+			if first == "" {
+				first = res
+			}
+			if res != first || strings.Contains(res, "err=true") {
+				run.Violation("C17:conn:result-depends-on-history", fmt.Sprintf("Get Device ID as command %d of a session returns %q; as the first command it returns %q", i, res, first), cs, nil)
+				return
+			}
+		} else if strings.Contains(res, "err=true") {
+			run.Violation("C17:conn:result-depends-on-history", fmt.Sprintf("Get Chassis Status as command %d of a session fails (%s)", i, res), cs, nil)
+			return
+		}
+	}
+	run.Event("long-session-commands", o.N)
+	run.Nontrivial(fmt.Sprintf("long|%d", o.N))
 }
